@@ -26,6 +26,8 @@ pub enum Stop {
     StepLimit,
     /// the descriptions leave the meaning open: the case is discarded
     Unspecified(String),
+    /// the program ended while this activation was paused
+    Killed,
 }
 
 pub struct VecCell {
@@ -90,8 +92,18 @@ pub struct RunResult {
     pub ticks: u32,
 }
 
+/// scheduler interface for programs with `go` (the harness owns the schedule)
+pub trait Sched: Sync {
+    /// called by the running activation immediately before a visible action
+    fn visible(&self, me: usize) -> Result<(), Stop>;
+    /// create a new activation running the zero-argument function value
+    fn spawn(&self, me: usize, f: Val) -> Result<(), Stop>;
+    fn print(&self, bytes: &[u8]);
+}
+
 pub struct Interp<'a> {
     pub p: &'a GProg,
+    pub sched: Option<(&'a dyn Sched, usize)>,
     pub out: Vec<u8>,
     pub steps: u64,
     pub max_steps: u64,
@@ -105,11 +117,19 @@ impl<'a> Interp<'a> {
     pub fn new(p: &'a GProg, max_steps: u64) -> Self {
         Interp {
             p,
+            sched: None,
             out: vec![],
             steps: 0,
             max_steps,
             depth: 0,
             prints: 0,
+        }
+    }
+
+    fn visible(&mut self) -> Result<(), Stop> {
+        match self.sched {
+            Some((s, me)) => s.visible(me),
+            None => Ok(()),
         }
     }
 
@@ -205,7 +225,7 @@ impl<'a> Interp<'a> {
         })
     }
 
-    fn call_fn(&mut self, f: usize, args: Vec<Val>) -> Result<Val, Stop> {
+    pub fn call_fn(&mut self, f: usize, args: Vec<Val>) -> Result<Val, Stop> {
         let p = self.p;
         let def = &p.fns[f];
         let mut env: Env = None;
@@ -219,6 +239,10 @@ impl<'a> Interp<'a> {
         let r = self.eval(&def.body, &env);
         self.depth -= 1;
         r
+    }
+
+    pub fn call_val_pub(&mut self, f: Val, args: Vec<Val>) -> Result<Val, Stop> {
+        self.call_val(f, args)
     }
 
     fn call_val(&mut self, f: Val, args: Vec<Val>) -> Result<Val, Stop> {
@@ -247,9 +271,18 @@ impl<'a> Interp<'a> {
         match b {
             Builtin::Println | Builtin::Print => {
                 let Some(Val::Str(s)) = a.first() else { return Err(bad()) };
-                self.out.extend_from_slice(s.as_bytes());
-                if b == Builtin::Println {
-                    self.out.push(b'\n');
+                self.visible()?;
+                if let Some((sch, _)) = self.sched {
+                    let mut bytes = s.as_bytes().to_vec();
+                    if b == Builtin::Println {
+                        bytes.push(b'\n');
+                    }
+                    sch.print(&bytes);
+                } else {
+                    self.out.extend_from_slice(s.as_bytes());
+                    if b == Builtin::Println {
+                        self.out.push(b'\n');
+                    }
                 }
                 self.prints += 1;
                 if self.out.len() > 1 << 20 {
@@ -304,11 +337,16 @@ impl<'a> Interp<'a> {
             }
             Builtin::RefNew => Ok(Val::Ref(Arc::new(Mutex::new(a.into_iter().next().ok_or_else(bad)?)))),
             Builtin::RefGet => match a.first() {
-                Some(Val::Ref(r)) => Ok(r.lock().unwrap().clone()),
+                Some(Val::Ref(r)) => {
+                    self.visible()?;
+                    let v = r.lock().unwrap().clone();
+                    Ok(v)
+                }
                 _ => Err(bad()),
             },
             Builtin::RefSet => {
                 let (Some(Val::Ref(r)), Some(v)) = (a.first(), a.get(1)) else { return Err(bad()) };
+                self.visible()?;
                 *r.lock().unwrap() = v.clone();
                 Ok(Val::Unit)
             }
@@ -535,7 +573,17 @@ impl<'a> Interp<'a> {
                     None => Ok(Val::Unit),
                 }
             }
-            Expr::Go(_) => Err(Stop::Unspecified("go (handled by the scheduler-driven runner)".into())),
+            Expr::Go(c) => {
+                let f = self.eval(c, env)?;
+                match self.sched {
+                    Some((s, me)) => {
+                        s.visible(me)?;
+                        s.spawn(me, f)?;
+                        Ok(Val::Unit)
+                    }
+                    None => Err(Stop::Unspecified("go without a scheduler".into())),
+                }
+            }
         }
     }
 }
@@ -548,6 +596,7 @@ pub fn run(p: &GProg, max_steps: u64) -> RunResult {
         Err(Stop::Fail(k)) => Ok(End::Failed(k)),
         Err(Stop::StepLimit) => Err("step-limit".to_string()),
         Err(Stop::Unspecified(m)) => Err(m),
+        Err(Stop::Killed) => Err("killed".to_string()),
     };
     RunResult {
         stdout: it.out,
@@ -555,4 +604,192 @@ pub fn run(p: &GProg, max_steps: u64) -> RunResult {
         steps: it.steps,
         ticks: it.prints,
     }
+}
+
+// ---------------------------------------------------------------------------
+// programs with `go`: deterministic scheduling owned by the harness
+
+pub struct SchedRun {
+    pub stdout: Vec<u8>,
+    pub end: Result<End, String>,
+    /// number of live activations at every choice point that consumed a byte
+    pub choice_points: Vec<u8>,
+    pub spawned: u32,
+}
+
+struct SState {
+    current: usize,
+    live: Vec<usize>,
+    next_id: usize,
+    sched: Vec<u8>,
+    pos: usize,
+    choice_points: Vec<u8>,
+    out: Vec<u8>,
+    done: Option<Result<End, String>>,
+    spawned: u32,
+}
+
+struct Scheduler<'a, 'scope, 'env> {
+    st: Mutex<SState>,
+    cv: std::sync::Condvar,
+    p: &'a GProg,
+    max_steps: u64,
+    scope: &'scope std::thread::Scope<'scope, 'env>,
+}
+
+impl SState {
+    fn pick(&mut self, l: &[usize]) -> usize {
+        if l.len() >= 2 {
+            let b = self.sched.get(self.pos).copied().unwrap_or(0);
+            self.pos += 1;
+            self.choice_points.push(l.len().min(255) as u8);
+            l[b as usize % l.len()]
+        } else {
+            l[0]
+        }
+    }
+}
+
+impl<'a: 'scope, 'scope, 'env> Scheduler<'a, 'scope, 'env> {
+    fn wait_turn(&self, me: usize) -> Result<(), Stop> {
+        let mut g = self.st.lock().unwrap();
+        while g.current != me && g.done.is_none() {
+            g = self.cv.wait(g).unwrap();
+        }
+        if g.done.is_some() {
+            Err(Stop::Killed)
+        } else {
+            Ok(())
+        }
+    }
+
+    fn finish(&self, me: usize, r: Result<Val, Stop>) {
+        let mut g = self.st.lock().unwrap();
+        if g.done.is_some() {
+            return;
+        }
+        match r {
+            Err(Stop::Fail(k)) => g.done = Some(Ok(End::Failed(k))),
+            Err(Stop::StepLimit) => g.done = Some(Err("step-limit".into())),
+            Err(Stop::Unspecified(m)) => g.done = Some(Err(m)),
+            Err(Stop::Killed) => {}
+            Ok(_) => {
+                g.live.retain(|x| *x != me);
+                if me == 0 {
+                    g.done = Some(Ok(End::Normal));
+                } else if !g.live.is_empty() {
+                    let l = g.live.clone();
+                    let t = g.pick(&l);
+                    g.current = t;
+                }
+            }
+        }
+        self.cv.notify_all();
+    }
+}
+
+impl<'a: 'scope, 'scope, 'env> Sched for &'scope Scheduler<'a, 'scope, 'env> {
+    fn visible(&self, me: usize) -> Result<(), Stop> {
+        let mut g = self.st.lock().unwrap();
+        if g.done.is_some() {
+            return Err(Stop::Killed);
+        }
+        let mut l = vec![me];
+        l.extend(g.live.iter().copied().filter(|x| *x != me));
+        let t = g.pick(&l);
+        if t != me {
+            g.current = t;
+            self.cv.notify_all();
+            while g.current != me && g.done.is_none() {
+                g = self.cv.wait(g).unwrap();
+            }
+            if g.done.is_some() {
+                return Err(Stop::Killed);
+            }
+        }
+        Ok(())
+    }
+
+    fn spawn(&self, _me: usize, f: Val) -> Result<(), Stop> {
+        let id = {
+            let mut g = self.st.lock().unwrap();
+            let id = g.next_id;
+            g.next_id += 1;
+            g.live.push(id);
+            g.live.sort();
+            g.spawned += 1;
+            if g.spawned > 64 {
+                return Err(Stop::Unspecified("too many activations".into()));
+            }
+            id
+        };
+        let this: &'scope Scheduler<'a, 'scope, 'env> = self;
+        let _ = std::thread::Builder::new().stack_size(4 << 20).spawn_scoped(this.scope, move || {
+            if this.wait_turn(id).is_err() {
+                return;
+            }
+            let mut it = Interp::new(this.p, this.max_steps);
+            let handle: &'scope Scheduler<'a, 'scope, 'env> = this;
+            // the trait is implemented for the reference type
+            let sref: &dyn Sched = Box::leak(Box::new(handle));
+            it.sched = Some((sref, id));
+            let r = it.call_val_pub(f, vec![]);
+            this.finish(id, r);
+        });
+        Ok(())
+    }
+
+    fn print(&self, bytes: &[u8]) {
+        let mut g = self.st.lock().unwrap();
+        g.out.extend_from_slice(bytes);
+    }
+}
+
+/// Run `main` with activations scheduled by `sched` (see DESIGN.md: a choice
+/// point before every ref_get / ref_set / print / go of the running
+/// activation; L = [current, others ascending]; byte b picks L[b % len]).
+pub fn run_sched(p: &GProg, sched: &[u8], max_steps: u64) -> SchedRun {
+    let result: Mutex<Option<SchedRun>> = Mutex::new(None);
+    std::thread::scope(|scope| {
+        let s = Scheduler {
+            st: Mutex::new(SState {
+                current: 0,
+                live: vec![0],
+                next_id: 1,
+                sched: sched.to_vec(),
+                pos: 0,
+                choice_points: vec![],
+                out: vec![],
+                done: None,
+                spawned: 0,
+            }),
+            cv: std::sync::Condvar::new(),
+            p,
+            max_steps,
+            scope,
+        };
+        // the scheduler must outlive every activation thread of this scope
+        let s: &Scheduler = Box::leak(Box::new(s));
+        let mut it = Interp::new(p, max_steps);
+        let sref: &dyn Sched = Box::leak(Box::new(s));
+        it.sched = Some((sref, 0));
+        let r = it.call_fn(p.main, vec![]);
+        s.finish(0, r);
+        // wake everybody up so that paused activations end
+        {
+            let mut g = s.st.lock().unwrap();
+            if g.done.is_none() {
+                g.done = Some(Err("main ended abnormally".into()));
+            }
+            s.cv.notify_all();
+        }
+        let g = s.st.lock().unwrap();
+        *result.lock().unwrap() = Some(SchedRun {
+            stdout: g.out.clone(),
+            end: g.done.clone().unwrap_or(Err("no result".into())),
+            choice_points: g.choice_points.clone(),
+            spawned: g.spawned,
+        });
+    });
+    result.into_inner().unwrap().unwrap()
 }
